@@ -60,6 +60,21 @@ def handle (line : String) : String :=
       let l := UInt8.ofNat last
       toHex (encHead cfg k seq len l) ++ " " ++ (if k = .full then "-" else toHex (encTail cfg crc32 k rnd [] l))
     | _, _, _, _, _ => "bad-op"
+  | ["bigrt", k, seq, rnd, len, seed, last] =>
+    -- a large frame described by a generator (byte i = seed + i + i/256, last byte given): the model
+    -- writes it, reads it back, and answers with lengths and CRC-32s instead of hex
+    match Kind.ofTag k, seq.toInt?, ofHex rnd, len.toNat?, seed.toNat?, last.toNat? with
+    | some k, some seq, some rnd, some len, some seed, some last =>
+      let p : Bytes := ((List.range (len - 1)).map fun i => UInt8.ofNat ((seed + i + i / 256) % 256)) ++ [UInt8.ofNat last]
+      match enc cfg crc32 k seq rnd p with
+      | .error e => "err " ++ e.tag
+      | .ok wire =>
+        let back := match (read cfg crc32 k seq (wire ++ [0xaa])).out with
+          | .ok f rest => s!"ok {f.length} {crc32 f} {rest.length}"
+          | .err e => "err " ++ e.tag
+          | .panic _ => "panic"
+        s!"{wire.length} {crc32 wire} | {back}"
+    | _, _, _, _, _, _ => "bad-op"
   | ["session", k, seq, ops] =>
     -- ops: `rnd:payload,…` with payload `-` (empty), hex, or `z<n>` (n zero bytes)
     let parseP (w : String) : Option Bytes :=
